@@ -137,7 +137,7 @@ def run(ctx):
     for e in ents:
         doc = meta.load(e.text())
         jobs.append((e.yaml[:-5], e.text(), e.argv(), variants_for(doc, 8 if quick else 24, ctx.seed, not quick)))
-    for k, (name, text) in enumerate(smallgen.sample_libraries(ctx.seed, 12 if quick else 60)):
+    for k, (name, text) in enumerate(smallgen.sample_libraries(ctx.seed, 36 if quick else 120)):
         doc = meta.load(text)
         if k % 2 == 0:
             # user code in the documented file-level splicer blocks (input.rst: file_top, module_use, module_top,
